@@ -135,6 +135,16 @@ CHECKS["C11"] = dict(
     design="8/C11",
     note=TRUST + "constructor postcondition for dimensions > 1 (SVD pseudo-inverse) assumed in the proof and checked natively; itertools.product and cKDTree contracts assumed.",
     technique="contract-based deductive verification: AST symbolic execution with assumed callee contracts + lemma chains (NRA/LIA), z3; bounded brute-force oracle as labelled stand-in")
+CHECKS["C14"] = dict(
+    category="proof",
+    text="Grid.moments executed symbolically for all four moment types (Cartesian in 1, 2, 3 dimensions) with a symbolic number of points, "
+         "symbolic data and centres: each entry's reduction is matched (sum-range / sum-term) against the defining quadrature sum, incl. the "
+         "(l,m) -> solid-harmonic row arithmetic of pure-radial moments (masked in-place updates), harmonics evaluated about the centre, output "
+         "shape, returned order list, argument validation. The order generator and solid_harmonics enter through contracts. Bounded/exhaustive "
+         "layer: generator to order 10 (thorough 40), explicit fsum oracles, Gaussians, dipole helper.",
+    design="8/C14",
+    note=TRUST + "generator block sizes and Horton row order by contract (exhaustively checked natively); the order loop is executed for three blocks.",
+    technique="contract-based deductive verification: AST symbolic execution with callee contracts + reduction matching, z3; exhaustive/bounded native layer as labelled stand-in")
 BOUNDED_ONLY = {
     "C09": ("8/C09", "band-limited decomposition/interpolation on atomic grids: angular integration, radial-component splines through knots, interpolant reproduces grid values, derivative self-consistency, polynomial reproduction, molecular interpolation"),
     "C07": ("8/C07", "molecular grid = weighted concatenation of atomic grids: index table, segments, weights = atweights x aim, views with store on/off, fan-out of from_size/from_preset/from_pruned against hand-built grids, default radial grids, end-to-end 1% clause on presets"),
@@ -146,6 +156,8 @@ BOUNDED_ONLY = {
     "C18": ("8/C18", "MultiDomainGrid enumeration/integration on all size combinations up to 6 per domain, 1-4 domains, every chunk size 1..total+1, exact integer family, _chunked_iterator contracts"),
 }
 for _pid, (_ref, _what) in BOUNDED_ONLY.items():
+    if _pid in CHECKS:
+        continue
     CHECKS[_pid] = dict(
         category="exploration",
         text="Bounded run-time contracts on the real functions (no proof obligations yet for this property): " + _what +
